@@ -58,6 +58,7 @@ type sched struct {
 	ExpectLimit   int64    `json:"expect_limit,omitempty"`
 	ExpectIntervalMs int   `json:"expect_interval_ms,omitempty"`
 	ExpectNotNotifiedAfterDestroy bool `json:"expect_not_notified_after_destroy,omitempty"`
+	ExpectNoStuckNotification     bool `json:"expect_no_stuck_notification,omitempty"`
 }
 
 type lru struct {
@@ -617,6 +618,10 @@ func c19CacheScenarios() []sched {
 		ps = append(ps, sched{Name: "limit-v1-v2/" + be, cp: base, Prop: "C19", Threads: [][]string{{"L:400", "L:800"}}, Final: []string{"Q"}, ExpectLimit: 800})
 		ps = append(ps, sched{Name: "interval-v1-v2/" + be, cp: base, Prop: "C19", Threads: [][]string{{"I:500", "I:700"}}, Final: []string{"Q"}, ExpectIntervalMs: 700})
 		ps = append(ps, sched{Name: "limit-vs-destroy/" + be, cp: base, Prop: "C19", Threads: [][]string{{"L:400"}, {"X"}}, Final: []string{"Q", "L:900", "Q"}, ExpectNotNotifiedAfterDestroy: true})
+		// shut down in both ways one after the other (the context ends, then Destroy), then later changes of every
+		// setting the cache follows: nobody is left to take them
+		ps = append(ps, sched{Name: "changes-after-cancel-and-destroy/" + be, cp: base, Prop: "C19", Init: []string{"S:a:20", "C", "Q", "X", "Q"}, Threads: [][]string{{"I:5", "I:7", "I:9"}, {"L:900", "L:901"}}, Final: []string{"Q"}, ExpectNoStuckNotification: true, ExpectNotNotifiedAfterDestroy: true})
+		ps = append(ps, sched{Name: "changes-after-destroy/" + be, cp: base, Prop: "C19", Init: []string{"S:a:20", "X", "Q"}, Threads: [][]string{{"I:5", "I:7", "I:9"}, {"L:900", "L:901"}}, Final: []string{"Q"}, ExpectNoStuckNotification: true, ExpectNotNotifiedAfterDestroy: true})
 	}
 	return ps
 }
